@@ -1384,3 +1384,45 @@ def desugar_namedtuples(trees: Dict[str, ast.Module], baseline: Optional[Set[str
             Fix().visit(fn)
         ast.fix_missing_locations(tree)
     return sorted(records)
+
+
+def _desugar_methodcaller(fn: ast.AST) -> int:
+    """`m = operator.methodcaller("name", *a, **k)` bound once and only ever called as `m(obj)` is `obj.name(*a, **k)`."""
+    n = 0
+    defs = [st for st in ast.walk(fn) if isinstance(st, ast.Assign) and len(st.targets) == 1 and isinstance(st.targets[0], ast.Name)
+            and isinstance(st.value, ast.Call) and st.value.args and isinstance(st.value.args[0], ast.Constant) and isinstance(st.value.args[0].value, str)
+            and st.value.args[0].value.isidentifier()
+            and ((isinstance(st.value.func, ast.Name) and st.value.func.id == "methodcaller")
+                 or (isinstance(st.value.func, ast.Attribute) and st.value.func.attr == "methodcaller"))]
+    for d in defs:
+        name = d.targets[0].id
+        stores = [x for x in ast.walk(fn) if isinstance(x, ast.Name) and x.id == name and isinstance(x.ctx, (ast.Store, ast.Del))]
+        loads = [x for x in ast.walk(fn) if isinstance(x, ast.Name) and x.id == name and isinstance(x.ctx, ast.Load)]
+        calls = [c for c in ast.walk(fn) if isinstance(c, ast.Call) and isinstance(c.func, ast.Name) and c.func.id == name and len(c.args) == 1 and not c.keywords]
+        if len(stores) != 1 or not loads or len(calls) != len(loads):
+            continue
+        if not all(_simple(a) for a in d.value.args[1:]) or not all(_simple(k.value) for k in d.value.keywords):
+            continue
+        meth = d.value.args[0].value
+        for c in calls:
+            obj = c.args[0]
+            c.func = ast.copy_location(ast.Attribute(value=obj, attr=meth, ctx=ast.Load()), c.func)
+            c.args = [copy.deepcopy(a) for a in d.value.args[1:]]
+            c.keywords = [ast.keyword(arg=k.arg, value=copy.deepcopy(k.value)) for k in d.value.keywords]
+        d.value = ast.copy_location(ast.Constant(value=None), d.value)
+        n += 1
+    return n
+
+
+def desugar_after_inlining(trees: Dict[str, ast.Module]) -> int:
+    """Rewrites that become possible once helper calls have been spelled out (literal method / attribute names)."""
+    n = 0
+    for tree in trees.values():
+        src_has = any(isinstance(x, (ast.Name, ast.Attribute)) and getattr(x, "id", getattr(x, "attr", "")) in ("methodcaller", "getattr") for x in ast.walk(tree))
+        if not src_has:
+            continue
+        for fn in [x for x in ast.walk(tree) if isinstance(x, (ast.FunctionDef, ast.AsyncFunctionDef))]:
+            n += _desugar_methodcaller(fn)
+        _GetattrLiteral().visit(tree)
+        ast.fix_missing_locations(tree)
+    return n
